@@ -69,6 +69,11 @@ let rec sub n0 m =
             | O -> n0
             | S l -> sub k l)
 
+(** val eqb : bool -> bool -> bool **)
+
+let eqb b5 b6 =
+  if b5 then b6 else if b6 then false else true
+
 module Nat =
  struct
   (** val sub : nat -> nat -> nat **)
@@ -678,6 +683,13 @@ let rec rev = function
 | [] -> []
 | x :: l' -> app (rev l') (x :: [])
 
+(** val rev_append : 'a1 list -> 'a1 list -> 'a1 list **)
+
+let rec rev_append l l' =
+  match l with
+  | [] -> l'
+  | a :: l0 -> rev_append l0 (a :: l')
+
 (** val map : ('a1 -> 'a2) -> 'a1 list -> 'a2 list **)
 
 let rec map f = function
@@ -720,6 +732,16 @@ let rec filter f = function
 let rec find f = function
 | [] -> None
 | x :: tl -> if f x then Some x else find f tl
+
+(** val combine : 'a1 list -> 'a2 list -> ('a1 * 'a2) list **)
+
+let rec combine l l' =
+  match l with
+  | [] -> []
+  | x :: tl ->
+    (match l' with
+     | [] -> []
+     | y :: tl' -> (x, y) :: (combine tl tl'))
 
 (** val firstn : nat -> 'a1 list -> 'a1 list **)
 
@@ -2274,6 +2296,260 @@ let g_VendorSpecific =
     false)), EmptyString)))))))))))); gop = OpLT; glit = (Zpos (XI (XO
     XH))) } :: []
 
+(** val k_dictionary_AttributeOctets : z **)
+
+let k_dictionary_AttributeOctets =
+  Zpos (XO XH)
+
+(** val k_dictionary_AttributeString : z **)
+
+let k_dictionary_AttributeString =
+  Zpos XH
+
+(** val g_dictionary_Parser_parseAttribute : guard list **)
+
+let g_dictionary_Parser_parseAttribute =
+  { gexpr = (String ((Ascii (false, false, true, true, false, true, true,
+    false)), (String ((Ascii (true, false, true, false, false, true, true,
+    false)), (String ((Ascii (false, true, true, true, false, true, true,
+    false)), (String ((Ascii (false, false, false, true, false, true, false,
+    false)), (String ((Ascii (true, true, true, true, false, true, true,
+    false)), (String ((Ascii (true, false, false, true, false, true, true,
+    false)), (String ((Ascii (false, false, true, false, false, true, true,
+    false)), (String ((Ascii (true, false, false, true, false, true, false,
+    false)), EmptyString)))))))))))))))); gop = OpEQ; glit =
+    Z0 } :: ({ gexpr = (String ((Ascii (false, false, true, true, false,
+    true, true, false)), (String ((Ascii (true, false, true, false, false,
+    true, true, false)), (String ((Ascii (false, true, true, true, false,
+    true, true, false)), (String ((Ascii (false, false, false, true, false,
+    true, false, false)), (String ((Ascii (false, true, true, false, false,
+    true, true, false)), (String ((Ascii (true, true, false, true, true,
+    false, true, false)), (String ((Ascii (true, true, false, false, true,
+    true, false, false)), (String ((Ascii (true, false, true, true, true,
+    false, true, false)), (String ((Ascii (true, false, false, true, false,
+    true, false, false)), EmptyString)))))))))))))))))); gop = OpGT; glit =
+    (Zpos (XO (XO (XO XH)))) } :: ({ gexpr = (String ((Ascii (false, true,
+    true, false, false, true, true, false)), (String ((Ascii (true, true,
+    false, true, true, false, true, false)), (String ((Ascii (true, true,
+    false, false, true, true, false, false)), (String ((Ascii (true, false,
+    true, true, true, false, true, false)), (String ((Ascii (true, true,
+    false, true, true, false, true, false)), (String ((Ascii (false, false,
+    true, true, false, true, true, false)), (String ((Ascii (true, false,
+    true, false, false, true, true, false)), (String ((Ascii (false, true,
+    true, true, false, true, true, false)), (String ((Ascii (false, false,
+    false, true, false, true, false, false)), (String ((Ascii (false, true,
+    true, false, false, true, true, false)), (String ((Ascii (true, true,
+    false, true, true, false, true, false)), (String ((Ascii (true, true,
+    false, false, true, true, false, false)), (String ((Ascii (true, false,
+    true, true, true, false, true, false)), (String ((Ascii (true, false,
+    false, true, false, true, false, false)), (String ((Ascii (true, false,
+    true, true, false, true, false, false)), (String ((Ascii (true, false,
+    false, false, true, true, false, false)), (String ((Ascii (true, false,
+    true, true, true, false, true, false)),
+    EmptyString)))))))))))))))))))))))))))))))))); gop = OpEQ; glit = (Zpos
+    (XI (XO (XI (XI (XI (XO XH))))))) } :: ({ gexpr = (String ((Ascii (false,
+    false, true, true, false, true, true, false)), (String ((Ascii (true,
+    false, true, false, false, true, true, false)), (String ((Ascii (false,
+    true, true, true, false, true, true, false)), (String ((Ascii (false,
+    false, false, true, false, true, false, false)), (String ((Ascii (false,
+    true, true, false, false, true, true, false)), (String ((Ascii (true,
+    false, false, true, false, true, false, false)), EmptyString))))))))))));
+    gop = OpGE; glit = (Zpos (XI (XO XH))) } :: [])))
+
+(** val g_dictionary_Parser_parseVendor : guard list **)
+
+let g_dictionary_Parser_parseVendor =
+  { gexpr = (String ((Ascii (false, false, true, true, false, true, true,
+    false)), (String ((Ascii (true, false, true, false, false, true, true,
+    false)), (String ((Ascii (false, true, true, true, false, true, true,
+    false)), (String ((Ascii (false, false, false, true, false, true, false,
+    false)), (String ((Ascii (false, true, true, false, false, true, true,
+    false)), (String ((Ascii (true, false, false, true, false, true, false,
+    false)), EmptyString)))))))))))); gop = OpEQ; glit = (Zpos (XO (XO
+    XH))) } :: ({ gexpr = (String ((Ascii (false, false, true, true, false,
+    true, true, false)), (String ((Ascii (true, false, true, false, false,
+    true, true, false)), (String ((Ascii (false, true, true, true, false,
+    true, true, false)), (String ((Ascii (false, false, false, true, false,
+    true, false, false)), (String ((Ascii (false, true, true, false, false,
+    true, true, false)), (String ((Ascii (true, true, false, true, true,
+    false, true, false)), (String ((Ascii (true, true, false, false, true,
+    true, false, false)), (String ((Ascii (true, false, true, true, true,
+    false, true, false)), (String ((Ascii (true, false, false, true, false,
+    true, false, false)), EmptyString)))))))))))))))))); gop = OpNE; glit =
+    (Zpos (XO (XI (XO XH)))) } :: ({ gexpr = (String ((Ascii (false, true,
+    true, false, false, true, true, false)), (String ((Ascii (true, true,
+    false, true, true, false, true, false)), (String ((Ascii (true, true,
+    false, false, true, true, false, false)), (String ((Ascii (true, false,
+    true, true, true, false, true, false)), (String ((Ascii (true, true,
+    false, true, true, false, true, false)), (String ((Ascii (false, false,
+    false, true, true, true, false, false)), (String ((Ascii (true, false,
+    true, true, true, false, true, false)), EmptyString)))))))))))))); gop =
+    OpNE; glit = (Zpos (XO (XO (XI (XI (XO XH)))))) } :: ({ gexpr = (String
+    ((Ascii (false, true, true, false, false, true, true, false)), (String
+    ((Ascii (true, true, false, true, true, false, true, false)), (String
+    ((Ascii (true, true, false, false, true, true, false, false)), (String
+    ((Ascii (true, false, true, true, true, false, true, false)), (String
+    ((Ascii (true, true, false, true, true, false, true, false)), (String
+    ((Ascii (true, true, true, false, true, true, false, false)), (String
+    ((Ascii (true, false, true, true, true, false, true, false)),
+    EmptyString)))))))))))))); gop = OpNE; glit = (Zpos (XI (XO (XO (XO (XI
+    XH)))))) } :: ({ gexpr = (String ((Ascii (false, true, true, false,
+    false, true, true, false)), (String ((Ascii (true, true, false, true,
+    true, false, true, false)), (String ((Ascii (true, true, false, false,
+    true, true, false, false)), (String ((Ascii (true, false, true, true,
+    true, false, true, false)), (String ((Ascii (true, true, false, true,
+    true, false, true, false)), (String ((Ascii (true, true, true, false,
+    true, true, false, false)), (String ((Ascii (true, false, true, true,
+    true, false, true, false)), EmptyString)))))))))))))); gop = OpNE; glit =
+    (Zpos (XO (XI (XO (XO (XI XH)))))) } :: ({ gexpr = (String ((Ascii
+    (false, true, true, false, false, true, true, false)), (String ((Ascii
+    (true, true, false, true, true, false, true, false)), (String ((Ascii
+    (true, true, false, false, true, true, false, false)), (String ((Ascii
+    (true, false, true, true, true, false, true, false)), (String ((Ascii
+    (true, true, false, true, true, false, true, false)), (String ((Ascii
+    (true, true, true, false, true, true, false, false)), (String ((Ascii
+    (true, false, true, true, true, false, true, false)),
+    EmptyString)))))))))))))); gop = OpNE; glit = (Zpos (XO (XO (XI (XO (XI
+    XH)))))) } :: ({ gexpr = (String ((Ascii (false, true, true, false,
+    false, true, true, false)), (String ((Ascii (true, true, false, true,
+    true, false, true, false)), (String ((Ascii (true, true, false, false,
+    true, true, false, false)), (String ((Ascii (true, false, true, true,
+    true, false, true, false)), (String ((Ascii (true, true, false, true,
+    true, false, true, false)), (String ((Ascii (true, false, false, true,
+    true, true, false, false)), (String ((Ascii (true, false, true, true,
+    true, false, true, false)), EmptyString)))))))))))))); gop = OpLT; glit =
+    (Zpos (XO (XO (XO (XO (XI XH)))))) } :: ({ gexpr = (String ((Ascii
+    (false, true, true, false, false, true, true, false)), (String ((Ascii
+    (true, true, false, true, true, false, true, false)), (String ((Ascii
+    (true, true, false, false, true, true, false, false)), (String ((Ascii
+    (true, false, true, true, true, false, true, false)), (String ((Ascii
+    (true, true, false, true, true, false, true, false)), (String ((Ascii
+    (true, false, false, true, true, true, false, false)), (String ((Ascii
+    (true, false, true, true, true, false, true, false)),
+    EmptyString)))))))))))))); gop = OpGT; glit = (Zpos (XO (XI (XO (XO (XI
+    XH)))))) } :: [])))))))
+
+(** val t_parser_types : (string * z) list **)
+
+let t_parser_types =
+  ((String ((Ascii (true, true, false, false, true, true, true, false)),
+    (String ((Ascii (false, false, true, false, true, true, true, false)),
+    (String ((Ascii (false, true, false, false, true, true, true, false)),
+    (String ((Ascii (true, false, false, true, false, true, true, false)),
+    (String ((Ascii (false, true, true, true, false, true, true, false)),
+    (String ((Ascii (true, true, true, false, false, true, true, false)),
+    EmptyString)))))))))))), (Zpos XH)) :: (((String ((Ascii (true, true,
+    true, true, false, true, true, false)), (String ((Ascii (true, true,
+    false, false, false, true, true, false)), (String ((Ascii (false, false,
+    true, false, true, true, true, false)), (String ((Ascii (true, false,
+    true, false, false, true, true, false)), (String ((Ascii (false, false,
+    true, false, true, true, true, false)), (String ((Ascii (true, true,
+    false, false, true, true, true, false)), EmptyString)))))))))))), (Zpos
+    (XO XH))) :: (((String ((Ascii (true, false, false, true, false, true,
+    true, false)), (String ((Ascii (false, false, false, false, true, true,
+    true, false)), (String ((Ascii (true, false, false, false, false, true,
+    true, false)), (String ((Ascii (false, false, true, false, false, true,
+    true, false)), (String ((Ascii (false, false, true, false, false, true,
+    true, false)), (String ((Ascii (false, true, false, false, true, true,
+    true, false)), EmptyString)))))))))))), (Zpos (XI XH))) :: (((String
+    ((Ascii (false, false, true, false, false, true, true, false)), (String
+    ((Ascii (true, false, false, false, false, true, true, false)), (String
+    ((Ascii (false, false, true, false, true, true, true, false)), (String
+    ((Ascii (true, false, true, false, false, true, true, false)),
+    EmptyString)))))))), (Zpos (XO (XO XH)))) :: (((String ((Ascii (true,
+    false, false, true, false, true, true, false)), (String ((Ascii (false,
+    true, true, true, false, true, true, false)), (String ((Ascii (false,
+    false, true, false, true, true, true, false)), (String ((Ascii (true,
+    false, true, false, false, true, true, false)), (String ((Ascii (true,
+    true, true, false, false, true, true, false)), (String ((Ascii (true,
+    false, true, false, false, true, true, false)), (String ((Ascii (false,
+    true, false, false, true, true, true, false)), EmptyString)))))))))))))),
+    (Zpos (XI (XO XH)))) :: (((String ((Ascii (true, false, false, true,
+    false, true, true, false)), (String ((Ascii (false, false, false, false,
+    true, true, true, false)), (String ((Ascii (false, true, true, false,
+    true, true, true, false)), (String ((Ascii (false, true, true, false,
+    true, true, false, false)), (String ((Ascii (true, false, false, false,
+    false, true, true, false)), (String ((Ascii (false, false, true, false,
+    false, true, true, false)), (String ((Ascii (false, false, true, false,
+    false, true, true, false)), (String ((Ascii (false, true, false, false,
+    true, true, true, false)), EmptyString)))))))))))))))), (Zpos (XO (XI
+    XH)))) :: (((String ((Ascii (true, false, false, true, false, true, true,
+    false)), (String ((Ascii (false, false, false, false, true, true, true,
+    false)), (String ((Ascii (false, true, true, false, true, true, true,
+    false)), (String ((Ascii (false, true, true, false, true, true, false,
+    false)), (String ((Ascii (false, false, false, false, true, true, true,
+    false)), (String ((Ascii (false, true, false, false, true, true, true,
+    false)), (String ((Ascii (true, false, true, false, false, true, true,
+    false)), (String ((Ascii (false, true, true, false, false, true, true,
+    false)), (String ((Ascii (true, false, false, true, false, true, true,
+    false)), (String ((Ascii (false, false, false, true, true, true, true,
+    false)), EmptyString)))))))))))))))))))), (Zpos (XI (XI
+    XH)))) :: (((String ((Ascii (true, false, false, true, false, true, true,
+    false)), (String ((Ascii (false, true, true, false, false, true, true,
+    false)), (String ((Ascii (true, false, false, true, false, true, true,
+    false)), (String ((Ascii (false, false, true, false, false, true, true,
+    false)), EmptyString)))))))), (Zpos (XO (XO (XO XH))))) :: (((String
+    ((Ascii (true, false, false, true, false, true, true, false)), (String
+    ((Ascii (false, true, true, true, false, true, true, false)), (String
+    ((Ascii (false, false, true, false, true, true, true, false)), (String
+    ((Ascii (true, false, true, false, false, true, true, false)), (String
+    ((Ascii (true, true, true, false, false, true, true, false)), (String
+    ((Ascii (true, false, true, false, false, true, true, false)), (String
+    ((Ascii (false, true, false, false, true, true, true, false)), (String
+    ((Ascii (false, true, true, false, true, true, false, false)), (String
+    ((Ascii (false, false, true, false, true, true, false, false)),
+    EmptyString)))))))))))))))))), (Zpos (XI (XO (XO XH))))) :: (((String
+    ((Ascii (false, true, true, false, true, true, true, false)), (String
+    ((Ascii (true, true, false, false, true, true, true, false)), (String
+    ((Ascii (true, false, false, false, false, true, true, false)),
+    EmptyString)))))), (Zpos (XO (XI (XO XH))))) :: (((String ((Ascii (true,
+    false, true, false, false, true, true, false)), (String ((Ascii (false,
+    false, true, false, true, true, true, false)), (String ((Ascii (false,
+    false, false, true, false, true, true, false)), (String ((Ascii (true,
+    false, true, false, false, true, true, false)), (String ((Ascii (false,
+    true, false, false, true, true, true, false)), EmptyString)))))))))),
+    (Zpos (XI (XI (XO XH))))) :: (((String ((Ascii (true, false, false,
+    false, false, true, true, false)), (String ((Ascii (false, true, false,
+    false, false, true, true, false)), (String ((Ascii (true, false, false,
+    true, false, true, true, false)), (String ((Ascii (false, true, true,
+    true, false, true, true, false)), (String ((Ascii (true, false, false,
+    false, false, true, true, false)), (String ((Ascii (false, true, false,
+    false, true, true, true, false)), (String ((Ascii (true, false, false,
+    true, true, true, true, false)), EmptyString)))))))))))))), (Zpos (XO (XO
+    (XI XH))))) :: (((String ((Ascii (false, true, false, false, false, true,
+    true, false)), (String ((Ascii (true, false, false, true, true, true,
+    true, false)), (String ((Ascii (false, false, true, false, true, true,
+    true, false)), (String ((Ascii (true, false, true, false, false, true,
+    true, false)), EmptyString)))))))), (Zpos (XI (XO (XI
+    XH))))) :: (((String ((Ascii (true, true, false, false, true, true, true,
+    false)), (String ((Ascii (false, false, false, true, false, true, true,
+    false)), (String ((Ascii (true, true, true, true, false, true, true,
+    false)), (String ((Ascii (false, true, false, false, true, true, true,
+    false)), (String ((Ascii (false, false, true, false, true, true, true,
+    false)), EmptyString)))))))))), (Zpos (XO (XI (XI XH))))) :: (((String
+    ((Ascii (true, true, false, false, true, true, true, false)), (String
+    ((Ascii (true, false, false, true, false, true, true, false)), (String
+    ((Ascii (true, true, true, false, false, true, true, false)), (String
+    ((Ascii (false, true, true, true, false, true, true, false)), (String
+    ((Ascii (true, false, true, false, false, true, true, false)), (String
+    ((Ascii (false, false, true, false, false, true, true, false)),
+    EmptyString)))))))))))), (Zpos (XI (XI (XI XH))))) :: (((String ((Ascii
+    (false, false, true, false, true, true, true, false)), (String ((Ascii
+    (false, false, true, true, false, true, true, false)), (String ((Ascii
+    (false, true, true, false, true, true, true, false)), EmptyString)))))),
+    (Zpos (XO (XO (XO (XO XH)))))) :: (((String ((Ascii (true, false, false,
+    true, false, true, true, false)), (String ((Ascii (false, false, false,
+    false, true, true, true, false)), (String ((Ascii (false, true, true,
+    false, true, true, true, false)), (String ((Ascii (false, false, true,
+    false, true, true, false, false)), (String ((Ascii (false, false, false,
+    false, true, true, true, false)), (String ((Ascii (false, true, false,
+    false, true, true, true, false)), (String ((Ascii (true, false, true,
+    false, false, true, true, false)), (String ((Ascii (false, true, true,
+    false, false, true, true, false)), (String ((Ascii (true, false, false,
+    true, false, true, true, false)), (String ((Ascii (false, false, false,
+    true, true, true, true, false)), EmptyString)))))))))))))))))))), (Zpos
+    (XI (XO (XO (XO XH)))))) :: []))))))))))))))))
+
 type avp = { atype : z; aval : bytes }
 
 type attrs = avp list
@@ -2691,33 +2967,33 @@ let user_password h a sec ra =
 
 (** val xor_block : bytes -> nat -> bytes -> bytes res **)
 
-let xor_block attr off b =
-  if Nat.ltb (length attr)
+let xor_block attr0 off b =
+  if Nat.ltb (length attr0)
        (add off (S (S (S (S (S (S (S (S (S (S (S (S (S (S (S (S
          O)))))))))))))))))
   then Panic
   else Ok
-         (app (firstn off attr)
+         (app (firstn off attr0)
            (app
              (xor_pad
                (firstn (S (S (S (S (S (S (S (S (S (S (S (S (S (S (S (S
-                 O)))))))))))))))) (skipn off attr)) b)
+                 O)))))))))))))))) (skipn off attr0)) b)
              (skipn
                (add off (S (S (S (S (S (S (S (S (S (S (S (S (S (S (S (S
-                 O))))))))))))))))) attr)))
+                 O))))))))))))))))) attr0)))
 
 (** val ntp_loop :
     (bytes -> bytes) -> nat -> nat -> bytes -> bytes -> bytes -> bytes ->
     bytes res **)
 
-let rec ntp_loop h n0 chunk sec ra salt attr =
+let rec ntp_loop h n0 chunk sec ra salt attr0 =
   match n0 with
-  | O -> Ok attr
+  | O -> Ok attr0
   | S n' ->
     let h0 =
       if Nat.eqb chunk O
       then Ok (h (app sec (app ra salt)))
-      else (match slice attr
+      else (match slice attr0
                     (add (S (S O))
                       (mul (sub chunk (S O)) (S (S (S (S (S (S (S (S (S (S (S
                         (S (S (S (S (S O))))))))))))))))))
@@ -2729,7 +3005,7 @@ let rec ntp_loop h n0 chunk sec ra salt attr =
     in
     (match h0 with
      | Ok b ->
-       (match xor_block attr
+       (match xor_block attr0
                 (add (S (S O))
                   (mul chunk (S (S (S (S (S (S (S (S (S (S (S (S (S (S (S (S
                     O)))))))))))))))))) b with
@@ -2773,14 +3049,14 @@ let new_tunnel_password h pw salt sec ra =
                               let chunks0 =
                                 if Nat.eqb chunks O then S O else chunks
                               in
-                              let attr =
+                              let attr0 =
                                 app (firstn (S (S O)) salt)
                                   (pad_to
                                     (mul chunks0 (S (S (S (S (S (S (S (S (S
                                       (S (S (S (S (S (S (S O)))))))))))))))))
                                     ((zbyte (zlen pw)) :: pw))
                               in
-                              ntp_loop h chunks0 O sec ra salt attr)
+                              ntp_loop h chunks0 O sec ra salt attr0)
 
 (** val tp_loop :
     (bytes -> bytes) -> nat -> nat -> bytes -> bytes -> bytes -> bytes ->
@@ -3379,6 +3655,949 @@ let rec xrun h retry max_errors skip_verify request0 s = function
 | e :: r ->
   xrun h retry max_errors skip_verify request0
     (xstep h retry max_errors skip_verify request0 s e) r
+
+type str = bytes
+
+(** val s2b : string -> str **)
+
+let s2b s =
+  map n_of_ascii (list_ascii_of_string s)
+
+type attr = { a_name : str; a_oid : z list; a_type : z; a_size : z option;
+              a_encrypt : z option; a_has_tag : bool; a_concat : bool }
+
+type value = { v_attr : str; v_name : str; v_number : z }
+
+type vendor = { vn_name : str; vn_number : z; vn_format : (z * z) option;
+                vn_attrs : attr list; vn_values : value list }
+
+type dict = { d_attrs : attr list; d_values : value list;
+              d_vendors : vendor list }
+
+(** val empty_dict : dict **)
+
+let empty_dict =
+  { d_attrs = []; d_values = []; d_vendors = [] }
+
+(** val pE_oid : n **)
+
+let pE_oid =
+  Npos XH
+
+(** val pE_type : n **)
+
+let pE_type =
+  Npos (XO XH)
+
+(** val pE_dupflag : n **)
+
+let pE_dupflag =
+  Npos (XI XH)
+
+(** val pE_enctype : n **)
+
+let pE_enctype =
+  Npos (XO (XO XH))
+
+(** val pE_flag : n **)
+
+let pE_flag =
+  Npos (XI (XO XH))
+
+(** val pE_dupattr : n **)
+
+let pE_dupattr =
+  Npos (XO (XI XH))
+
+(** val pE_valnum : n **)
+
+let pE_valnum =
+  Npos (XI (XI XH))
+
+(** val pE_vendnum : n **)
+
+let pE_vendnum =
+  Npos (XO (XO (XO XH)))
+
+(** val pE_vendfmt : n **)
+
+let pE_vendfmt =
+  Npos (XI (XO (XO XH)))
+
+(** val pE_dupvendor : n **)
+
+let pE_dupvendor =
+  Npos (XO (XI (XO XH)))
+
+(** val pE_nested : n **)
+
+let pE_nested =
+  Npos (XI (XI (XO XH)))
+
+(** val pE_unkvendor : n **)
+
+let pE_unkvendor =
+  Npos (XO (XO (XI XH)))
+
+(** val pE_unmatched : n **)
+
+let pE_unmatched =
+  Npos (XI (XO (XI XH)))
+
+(** val pE_badend : n **)
+
+let pE_badend =
+  Npos (XO (XI (XI XH)))
+
+(** val pE_incl_in_block : n **)
+
+let pE_incl_in_block =
+  Npos (XI (XI (XI XH)))
+
+(** val pE_open : n **)
+
+let pE_open =
+  Npos (XO (XO (XO (XO XH))))
+
+(** val pE_recursive : n **)
+
+let pE_recursive =
+  Npos (XI (XO (XO (XO XH))))
+
+(** val pE_unkline : n **)
+
+let pE_unkline =
+  Npos (XO (XI (XO (XO XH))))
+
+(** val pE_unclosed : n **)
+
+let pE_unclosed =
+  Npos (XI (XI (XO (XO XH))))
+
+(** val pE_scan : n **)
+
+let pE_scan =
+  Npos (XO (XO (XI (XO XH))))
+
+type perr =
+| ParseErr of n * str * nat
+| PlainErr of n
+
+type 'a pres =
+| POk of 'a
+| PFail of perr
+| PFuel
+
+(** val frev : 'a1 list -> 'a1 list **)
+
+let frev l =
+  rev_append l []
+
+(** val is_space : n -> bool **)
+
+let is_space b =
+  (||)
+    ((||)
+      ((||)
+        ((||)
+          ((||) (N.eqb b (Npos (XI (XO (XO XH)))))
+            (N.eqb b (Npos (XO (XI (XO XH))))))
+          (N.eqb b (Npos (XI (XI (XO XH))))))
+        (N.eqb b (Npos (XO (XO (XI XH))))))
+      (N.eqb b (Npos (XI (XO (XI XH))))))
+    (N.eqb b (Npos (XO (XO (XO (XO (XO XH)))))))
+
+(** val fields_acc : n list -> bytes -> str list **)
+
+let rec fields_acc cur = function
+| [] -> (match cur with
+         | [] -> []
+         | _ :: _ -> (frev cur) :: [])
+| b :: r ->
+  if is_space b
+  then (match cur with
+        | [] -> fields_acc [] r
+        | _ :: _ -> (frev cur) :: (fields_acc [] r))
+  else fields_acc (b :: cur) r
+
+(** val fields : bytes -> str list **)
+
+let fields s =
+  fields_acc [] s
+
+(** val drop_cr : bytes -> bytes **)
+
+let drop_cr l =
+  match frev l with
+  | [] -> l
+  | n0 :: r ->
+    (match n0 with
+     | N0 -> l
+     | Npos p ->
+       (match p with
+        | XI p0 ->
+          (match p0 with
+           | XO p1 ->
+             (match p1 with
+              | XI p2 -> (match p2 with
+                          | XH -> frev r
+                          | _ -> l)
+              | _ -> l)
+           | _ -> l)
+        | _ -> l))
+
+(** val lines_acc : n list -> bytes -> bytes list **)
+
+let rec lines_acc cur = function
+| [] -> (match cur with
+         | [] -> []
+         | _ :: _ -> (drop_cr (frev cur)) :: [])
+| b :: r ->
+  if N.eqb b (Npos (XO (XI (XO XH))))
+  then (drop_cr (frev cur)) :: (lines_acc [] r)
+  else lines_acc (b :: cur) r
+
+(** val scan_lines : bytes -> bytes list **)
+
+let scan_lines s =
+  lines_acc [] s
+
+(** val max_token : n **)
+
+let max_token =
+  Npos (XO (XO (XO (XO (XO (XO (XO (XO (XO (XO (XO (XO (XO (XO (XO (XO
+    XH))))))))))))))))
+
+(** val strip_comment : bytes -> bytes **)
+
+let rec strip_comment = function
+| [] -> []
+| b :: r ->
+  if N.eqb b (Npos (XI (XI (XO (XO (XO XH))))))
+  then []
+  else b :: (strip_comment r)
+
+(** val digit_val : n -> z option **)
+
+let digit_val b =
+  if (&&) (N.leb (Npos (XO (XO (XO (XO (XI XH)))))) b)
+       (N.leb b (Npos (XI (XO (XO (XI (XI XH)))))))
+  then Some (Z.sub (Z.of_N b) (Zpos (XO (XO (XO (XO (XI XH)))))))
+  else if (&&) (N.leb (Npos (XI (XO (XO (XO (XO (XI XH))))))) b)
+            (N.leb b (Npos (XO (XI (XI (XO (XO (XI XH))))))))
+       then Some (Z.sub (Z.of_N b) (Zpos (XI (XI (XI (XO (XI (XO XH))))))))
+       else if (&&) (N.leb (Npos (XI (XO (XO (XO (XO (XO XH))))))) b)
+                 (N.leb b (Npos (XO (XI (XI (XO (XO (XO XH))))))))
+            then Some (Z.sub (Z.of_N b) (Zpos (XI (XI (XI (XO (XI XH)))))))
+            else None
+
+(** val digits_val : z -> z -> bytes -> z option **)
+
+let rec digits_val base acc = function
+| [] -> Some acc
+| b :: r ->
+  (match digit_val b with
+   | Some d ->
+     if Z.ltb d base
+     then digits_val base (Z.add (Z.mul acc base) d) r
+     else None
+   | None -> None)
+
+(** val parse_uint32 : z -> bytes -> z option **)
+
+let parse_uint32 base s = match s with
+| [] -> None
+| _ :: _ ->
+  (match digits_val base Z0 s with
+   | Some v ->
+     if Z.ltb v (Zpos (XO (XO (XO (XO (XO (XO (XO (XO (XO (XO (XO (XO (XO (XO
+          (XO (XO (XO (XO (XO (XO (XO (XO (XO (XO (XO (XO (XO (XO (XO (XO (XO
+          (XO XH)))))))))))))))))))))))))))))))))
+     then Some v
+     else None
+   | None -> None)
+
+(** val int32_body : bool -> bytes -> z option **)
+
+let int32_body neg body = match body with
+| [] -> None
+| _ :: _ ->
+  (match digits_val (Zpos (XO (XI (XO XH)))) Z0 body with
+   | Some v ->
+     if neg
+     then if Z.leb v (Zpos (XO (XO (XO (XO (XO (XO (XO (XO (XO (XO (XO (XO
+               (XO (XO (XO (XO (XO (XO (XO (XO (XO (XO (XO (XO (XO (XO (XO
+               (XO (XO (XO (XO XH))))))))))))))))))))))))))))))))
+          then Some (Z.opp v)
+          else None
+     else if Z.ltb v (Zpos (XO (XO (XO (XO (XO (XO (XO (XO (XO (XO (XO (XO
+               (XO (XO (XO (XO (XO (XO (XO (XO (XO (XO (XO (XO (XO (XO (XO
+               (XO (XO (XO (XO XH))))))))))))))))))))))))))))))))
+          then Some v
+          else None
+   | None -> None)
+
+(** val parse_int32 : bytes -> z option **)
+
+let parse_int32 s = match s with
+| [] -> None
+| b :: r ->
+  if N.eqb b (Npos (XI (XI (XO (XI (XO XH))))))
+  then int32_body false r
+  else if N.eqb b (Npos (XI (XO (XI (XI (XO XH))))))
+       then int32_body true r
+       else int32_body false s
+
+(** val parse_oid_aux : bool -> z list -> bytes -> z list option **)
+
+let rec parse_oid_aux first acc = function
+| [] -> Some (frev acc)
+| b :: r ->
+  if N.eqb b (Npos (XO (XI (XI (XI (XO XH))))))
+  then if first
+       then None
+       else (match r with
+             | [] -> None
+             | n0 :: _ ->
+               if (&&) (N.leb (Npos (XO (XO (XO (XO (XI XH)))))) n0)
+                    (N.leb n0 (Npos (XI (XO (XO (XI (XI XH)))))))
+               then parse_oid_aux false (Z0 :: acc) r
+               else None)
+  else if (&&) (N.leb (Npos (XO (XO (XO (XO (XI XH)))))) b)
+            (N.leb b (Npos (XI (XO (XO (XI (XI XH)))))))
+       then let acc' = if first then Z0 :: [] else acc in
+            (match acc' with
+             | [] -> None
+             | x :: t ->
+               parse_oid_aux false
+                 ((Z.add (Z.mul x (Zpos (XO (XI (XO XH)))))
+                    (Z.sub (Z.of_N b) (Zpos (XO (XO (XO (XO (XI XH)))))))) :: t)
+                 r)
+       else None
+
+(** val parse_oid : bytes -> z list **)
+
+let parse_oid s =
+  match parse_oid_aux true [] s with
+  | Some o -> o
+  | None -> []
+
+(** val lower : n -> n **)
+
+let lower b =
+  if (&&) (N.leb (Npos (XI (XO (XO (XO (XO (XO XH))))))) b)
+       (N.leb b (Npos (XO (XI (XO (XI (XI (XO XH))))))))
+  then N.add b (Npos (XO (XO (XO (XO (XO XH))))))
+  else b
+
+(** val equal_fold : bytes -> bytes -> bool **)
+
+let equal_fold a b =
+  beq (map lower a) (map lower b)
+
+(** val lookup_type : (string * z) list -> bytes -> z option **)
+
+let rec lookup_type tbl t =
+  match tbl with
+  | [] -> None
+  | p :: r ->
+    let (n0, v) = p in
+    if equal_fold t (s2b n0) then Some v else lookup_type r t
+
+(** val split_on : n -> n list -> bytes -> bytes list **)
+
+let rec split_on sep cur = function
+| [] -> (frev cur) :: []
+| b :: r ->
+  if N.eqb b sep
+  then (frev cur) :: (split_on sep [] r)
+  else split_on sep (b :: cur) r
+
+(** val has_prefix : bytes -> bytes -> bool **)
+
+let has_prefix p s =
+  beq (firstn (length p) s) p
+
+(** val apply_flags : bytes list -> attr -> attr res **)
+
+let rec apply_flags fl a =
+  match fl with
+  | [] -> Ok a
+  | f :: r ->
+    if has_prefix
+         (s2b (String ((Ascii (true, false, true, false, false, true, true,
+           false)), (String ((Ascii (false, true, true, true, false, true,
+           true, false)), (String ((Ascii (true, true, false, false, false,
+           true, true, false)), (String ((Ascii (false, true, false, false,
+           true, true, true, false)), (String ((Ascii (true, false, false,
+           true, true, true, true, false)), (String ((Ascii (false, false,
+           false, false, true, true, true, false)), (String ((Ascii (false,
+           false, true, false, true, true, true, false)), (String ((Ascii
+           (true, false, true, true, true, true, false, false)),
+           EmptyString))))))))))))))))) f
+    then (match a.a_encrypt with
+          | Some _ -> Err pE_dupflag
+          | None ->
+            (match parse_int32 (skipn (S (S (S (S (S (S (S (S O)))))))) f) with
+             | Some v ->
+               apply_flags r { a_name = a.a_name; a_oid = a.a_oid; a_type =
+                 a.a_type; a_size = a.a_size; a_encrypt = (Some v);
+                 a_has_tag = a.a_has_tag; a_concat = a.a_concat }
+             | None -> Err pE_enctype))
+    else if beq f
+              (s2b (String ((Ascii (false, false, false, true, false, true,
+                true, false)), (String ((Ascii (true, false, false, false,
+                false, true, true, false)), (String ((Ascii (true, true,
+                false, false, true, true, true, false)), (String ((Ascii
+                (true, true, true, true, true, false, true, false)), (String
+                ((Ascii (false, false, true, false, true, true, true,
+                false)), (String ((Ascii (true, false, false, false, false,
+                true, true, false)), (String ((Ascii (true, true, true,
+                false, false, true, true, false)), EmptyString)))))))))))))))
+         then if a.a_has_tag
+              then Err pE_dupflag
+              else apply_flags r { a_name = a.a_name; a_oid = a.a_oid;
+                     a_type = a.a_type; a_size = a.a_size; a_encrypt =
+                     a.a_encrypt; a_has_tag = true; a_concat = a.a_concat }
+         else if beq f
+                   (s2b (String ((Ascii (true, true, false, false, false,
+                     true, true, false)), (String ((Ascii (true, true, true,
+                     true, false, true, true, false)), (String ((Ascii
+                     (false, true, true, true, false, true, true, false)),
+                     (String ((Ascii (true, true, false, false, false, true,
+                     true, false)), (String ((Ascii (true, false, false,
+                     false, false, true, true, false)), (String ((Ascii
+                     (false, false, true, false, true, true, true, false)),
+                     EmptyString)))))))))))))
+              then if a.a_concat
+                   then Err pE_dupflag
+                   else apply_flags r { a_name = a.a_name; a_oid = a.a_oid;
+                          a_type = a.a_type; a_size = a.a_size; a_encrypt =
+                          a.a_encrypt; a_has_tag = a.a_has_tag; a_concat =
+                          true }
+              else Err pE_flag
+
+(** val parse_attribute :
+    bytes -> bytes -> bytes -> bytes option -> attr res **)
+
+let parse_attribute f1 f2 f3 f4 =
+  let oid = parse_oid f2 in
+  (match oid with
+   | [] -> Err pE_oid
+   | _ :: _ ->
+     let typ_size =
+       if equal_fold f3
+            (s2b (String ((Ascii (true, true, false, false, true, true, true,
+              false)), (String ((Ascii (false, false, true, false, true,
+              true, true, false)), (String ((Ascii (false, true, false,
+              false, true, true, true, false)), (String ((Ascii (true, false,
+              false, true, false, true, true, false)), (String ((Ascii
+              (false, true, true, true, false, true, true, false)), (String
+              ((Ascii (true, true, true, false, false, true, true, false)),
+              EmptyString)))))))))))))
+       then Some (k_dictionary_AttributeString, None)
+       else if equal_fold f3
+                 (s2b (String ((Ascii (true, true, true, true, false, true,
+                   true, false)), (String ((Ascii (true, true, false, false,
+                   false, true, true, false)), (String ((Ascii (false, false,
+                   true, false, true, true, true, false)), (String ((Ascii
+                   (true, false, true, false, false, true, true, false)),
+                   (String ((Ascii (false, false, true, false, true, true,
+                   true, false)), (String ((Ascii (true, true, false, false,
+                   true, true, true, false)), EmptyString)))))))))))))
+            then Some (k_dictionary_AttributeOctets, None)
+            else if (&&)
+                      ((&&)
+                        (holds (gd g_dictionary_Parser_parseAttribute (S O))
+                          (Z.of_nat (length f3)))
+                        (equal_fold (firstn (S (S (S (S (S (S (S O))))))) f3)
+                          (s2b (String ((Ascii (true, true, true, true,
+                            false, true, true, false)), (String ((Ascii
+                            (true, true, false, false, false, true, true,
+                            false)), (String ((Ascii (false, false, true,
+                            false, true, true, true, false)), (String ((Ascii
+                            (true, false, true, false, false, true, true,
+                            false)), (String ((Ascii (false, false, true,
+                            false, true, true, true, false)), (String ((Ascii
+                            (true, true, false, false, true, true, true,
+                            false)), (String ((Ascii (true, true, false,
+                            true, true, false, true, false)),
+                            EmptyString)))))))))))))))))
+                      (beq (skipn (sub (length f3) (S O)) f3) ((Npos (XI (XO
+                        (XI (XI (XI (XO XH))))))) :: []))
+                 then (match parse_int32
+                               (skipn (S (S (S (S (S (S (S O)))))))
+                                 (firstn (sub (length f3) (S O)) f3)) with
+                       | Some n0 ->
+                         Some (k_dictionary_AttributeOctets, (Some n0))
+                       | None -> None)
+                 else (match lookup_type t_parser_types f3 with
+                       | Some t -> Some (t, None)
+                       | None -> None)
+     in
+     (match typ_size with
+      | Some p ->
+        let (t, sz) = p in
+        let a = { a_name = f1; a_oid = oid; a_type = t; a_size = sz;
+          a_encrypt = None; a_has_tag = false; a_concat = false }
+        in
+        (match f4 with
+         | Some fl ->
+           apply_flags (split_on (Npos (XO (XO (XI (XI (XO XH)))))) [] fl) a
+         | None -> Ok a)
+      | None -> Err pE_type))
+
+(** val parse_value : bytes -> bytes -> bytes -> value res **)
+
+let parse_value f1 f2 f3 =
+  let n0 =
+    if has_prefix
+         (s2b (String ((Ascii (false, false, false, false, true, true, false,
+           false)), (String ((Ascii (false, false, false, true, true, true,
+           true, false)), EmptyString))))) f3
+    then parse_uint32 (Zpos (XO (XO (XO (XO XH))))) (skipn (S (S O)) f3)
+    else parse_uint32 (Zpos (XO (XI (XO XH)))) f3
+  in
+  (match n0 with
+   | Some v -> Ok { v_attr = f1; v_name = f2; v_number = v }
+   | None -> Err pE_valnum)
+
+(** val parse_vendor : bytes -> bytes -> bytes option -> vendor res **)
+
+let parse_vendor f1 f2 f3 =
+  match parse_int32 f2 with
+  | Some n0 ->
+    (match f3 with
+     | Some fm ->
+       let c7 = Z.of_N (nth (S (S (S (S (S (S (S O))))))) fm N0) in
+       let c8 = Z.of_N (nth (S (S (S (S (S (S (S (S O)))))))) fm N0) in
+       let c9 = Z.of_N (nth (S (S (S (S (S (S (S (S (S O))))))))) fm N0) in
+       if (||)
+            (negb
+              (has_prefix
+                (s2b (String ((Ascii (false, true, true, false, false, true,
+                  true, false)), (String ((Ascii (true, true, true, true,
+                  false, true, true, false)), (String ((Ascii (false, true,
+                  false, false, true, true, true, false)), (String ((Ascii
+                  (true, false, true, true, false, true, true, false)),
+                  (String ((Ascii (true, false, false, false, false, true,
+                  true, false)), (String ((Ascii (false, false, true, false,
+                  true, true, true, false)), (String ((Ascii (true, false,
+                  true, true, true, true, false, false)),
+                  EmptyString))))))))))))))) fm))
+            (holds (gd g_dictionary_Parser_parseVendor (S O))
+              (Z.of_nat (length fm)))
+       then Err pE_vendfmt
+       else if (||)
+                 ((||)
+                   (holds (gd g_dictionary_Parser_parseVendor (S (S O))) c8)
+                   ((&&)
+                     ((&&)
+                       (holds
+                         (gd g_dictionary_Parser_parseVendor (S (S (S O))))
+                         c7)
+                       (holds
+                         (gd g_dictionary_Parser_parseVendor (S (S (S (S
+                           O))))) c7))
+                     (holds
+                       (gd g_dictionary_Parser_parseVendor (S (S (S (S (S
+                         O)))))) c7)))
+                 ((||)
+                   (holds
+                     (gd g_dictionary_Parser_parseVendor (S (S (S (S (S (S
+                       O))))))) c9)
+                   (holds
+                     (gd g_dictionary_Parser_parseVendor (S (S (S (S (S (S (S
+                       O)))))))) c9))
+            then Err pE_vendfmt
+            else Ok { vn_name = f1; vn_number = n0; vn_format = (Some
+                   ((Z.sub c7 (Zpos (XO (XO (XO (XO (XI XH))))))),
+                   (Z.sub c9 (Zpos (XO (XO (XO (XO (XI XH)))))))));
+                   vn_attrs = []; vn_values = [] }
+     | None ->
+       Ok { vn_name = f1; vn_number = n0; vn_format = None; vn_attrs = [];
+         vn_values = [] })
+  | None -> Err pE_vendnum
+
+(** val oid_eqb : z list -> z list -> bool **)
+
+let oid_eqb a b =
+  (&&) (Nat.eqb (length a) (length b))
+    (forallb (fun p -> Z.eqb (fst p) (snd p)) (combine a b))
+
+(** val attr_by_name : attr list -> str -> attr option **)
+
+let rec attr_by_name l n0 =
+  match l with
+  | [] -> None
+  | a :: r -> if beq a.a_name n0 then Some a else attr_by_name r n0
+
+(** val vendor_index_by_name : vendor list -> str -> nat -> nat option **)
+
+let rec vendor_index_by_name l n0 i =
+  match l with
+  | [] -> None
+  | v :: r ->
+    if beq v.vn_name n0 then Some i else vendor_index_by_name r n0 (S i)
+
+(** val vendor_by_name_or_number : vendor list -> str -> z -> bool **)
+
+let vendor_by_name_or_number l n0 k =
+  existsb (fun v -> (||) (beq v.vn_name n0) (Z.eqb v.vn_number k)) l
+
+(** val opt_z_eqb : z option -> z option -> bool **)
+
+let opt_z_eqb a b =
+  match a with
+  | Some x -> (match b with
+               | Some y -> Z.eqb x y
+               | None -> false)
+  | None -> (match b with
+             | Some _ -> false
+             | None -> true)
+
+(** val attr_equals : attr -> attr -> bool **)
+
+let attr_equals a b =
+  (&&)
+    ((&&)
+      ((&&)
+        ((&&)
+          ((&&) ((&&) (beq a.a_name b.a_name) (oid_eqb a.a_oid b.a_oid))
+            (Z.eqb a.a_type b.a_type)) (opt_z_eqb a.a_size b.a_size))
+        (opt_z_eqb a.a_encrypt b.a_encrypt)) (eqb a.a_has_tag b.a_has_tag))
+    (eqb a.a_concat b.a_concat)
+
+(** val upd_vendor : dict -> nat -> (vendor -> vendor) -> dict **)
+
+let upd_vendor d i f =
+  match nth_error d.d_vendors i with
+  | Some v ->
+    { d_attrs = d.d_attrs; d_values = d.d_values; d_vendors =
+      (update_at i (f v) d.d_vendors) }
+  | None -> d
+
+type line_act =
+| LSkip
+| LAttr of bytes * bytes * bytes * bytes option
+| LValue of bytes * bytes * bytes
+| LVendor of bytes * bytes * bytes option
+| LBegin of bytes
+| LEnd of bytes
+| LInclude of bytes
+| LUnknown
+
+(** val classify_line : bytes -> line_act **)
+
+let classify_line line =
+  let l = strip_comment line in
+  (match l with
+   | [] -> LSkip
+   | _ :: _ ->
+     (match fields l with
+      | [] -> LSkip
+      | k :: l0 ->
+        (match l0 with
+         | [] -> LUnknown
+         | a :: l1 ->
+           (match l1 with
+            | [] ->
+              if beq k
+                   (s2b (String ((Ascii (false, true, false, false, false,
+                     false, true, false)), (String ((Ascii (true, false,
+                     true, false, false, false, true, false)), (String
+                     ((Ascii (true, true, true, false, false, false, true,
+                     false)), (String ((Ascii (true, false, false, true,
+                     false, false, true, false)), (String ((Ascii (false,
+                     true, true, true, false, false, true, false)), (String
+                     ((Ascii (true, false, true, true, false, true, false,
+                     false)), (String ((Ascii (false, true, true, false,
+                     true, false, true, false)), (String ((Ascii (true,
+                     false, true, false, false, false, true, false)), (String
+                     ((Ascii (false, true, true, true, false, false, true,
+                     false)), (String ((Ascii (false, false, true, false,
+                     false, false, true, false)), (String ((Ascii (true,
+                     true, true, true, false, false, true, false)), (String
+                     ((Ascii (false, true, false, false, true, false, true,
+                     false)), EmptyString)))))))))))))))))))))))))
+              then LBegin a
+              else if beq k
+                        (s2b (String ((Ascii (true, false, true, false,
+                          false, false, true, false)), (String ((Ascii
+                          (false, true, true, true, false, false, true,
+                          false)), (String ((Ascii (false, false, true,
+                          false, false, false, true, false)), (String ((Ascii
+                          (true, false, true, true, false, true, false,
+                          false)), (String ((Ascii (false, true, true, false,
+                          true, false, true, false)), (String ((Ascii (true,
+                          false, true, false, false, false, true, false)),
+                          (String ((Ascii (false, true, true, true, false,
+                          false, true, false)), (String ((Ascii (false,
+                          false, true, false, false, false, true, false)),
+                          (String ((Ascii (true, true, true, true, false,
+                          false, true, false)), (String ((Ascii (false, true,
+                          false, false, true, false, true, false)),
+                          EmptyString)))))))))))))))))))))
+                   then LEnd a
+                   else if beq k
+                             (s2b (String ((Ascii (false, false, true, false,
+                               false, true, false, false)), (String ((Ascii
+                               (true, false, false, true, false, false, true,
+                               false)), (String ((Ascii (false, true, true,
+                               true, false, false, true, false)), (String
+                               ((Ascii (true, true, false, false, false,
+                               false, true, false)), (String ((Ascii (false,
+                               false, true, true, false, false, true,
+                               false)), (String ((Ascii (true, false, true,
+                               false, true, false, true, false)), (String
+                               ((Ascii (false, false, true, false, false,
+                               false, true, false)), (String ((Ascii (true,
+                               false, true, false, false, false, true,
+                               false)), EmptyString)))))))))))))))))
+                        then LInclude a
+                        else LUnknown
+            | b :: l2 ->
+              (match l2 with
+               | [] ->
+                 if beq k
+                      (s2b (String ((Ascii (false, true, true, false, true,
+                        false, true, false)), (String ((Ascii (true, false,
+                        true, false, false, false, true, false)), (String
+                        ((Ascii (false, true, true, true, false, false, true,
+                        false)), (String ((Ascii (false, false, true, false,
+                        false, false, true, false)), (String ((Ascii (true,
+                        true, true, true, false, false, true, false)),
+                        (String ((Ascii (false, true, false, false, true,
+                        false, true, false)), EmptyString)))))))))))))
+                 then LVendor (a, b, None)
+                 else LUnknown
+               | c :: l3 ->
+                 (match l3 with
+                  | [] ->
+                    if beq k
+                         (s2b (String ((Ascii (true, false, false, false,
+                           false, false, true, false)), (String ((Ascii
+                           (false, false, true, false, true, false, true,
+                           false)), (String ((Ascii (false, false, true,
+                           false, true, false, true, false)), (String ((Ascii
+                           (false, true, false, false, true, false, true,
+                           false)), (String ((Ascii (true, false, false,
+                           true, false, false, true, false)), (String ((Ascii
+                           (false, true, false, false, false, false, true,
+                           false)), (String ((Ascii (true, false, true,
+                           false, true, false, true, false)), (String ((Ascii
+                           (false, false, true, false, true, false, true,
+                           false)), (String ((Ascii (true, false, true,
+                           false, false, false, true, false)),
+                           EmptyString)))))))))))))))))))
+                    then LAttr (a, b, c, None)
+                    else if beq k
+                              (s2b (String ((Ascii (false, true, true, false,
+                                true, false, true, false)), (String ((Ascii
+                                (true, false, false, false, false, false,
+                                true, false)), (String ((Ascii (false, false,
+                                true, true, false, false, true, false)),
+                                (String ((Ascii (true, false, true, false,
+                                true, false, true, false)), (String ((Ascii
+                                (true, false, true, false, false, false,
+                                true, false)), EmptyString)))))))))))
+                         then LValue (a, b, c)
+                         else if beq k
+                                   (s2b (String ((Ascii (false, true, true,
+                                     false, true, false, true, false)),
+                                     (String ((Ascii (true, false, true,
+                                     false, false, false, true, false)),
+                                     (String ((Ascii (false, true, true,
+                                     true, false, false, true, false)),
+                                     (String ((Ascii (false, false, true,
+                                     false, false, false, true, false)),
+                                     (String ((Ascii (true, true, true, true,
+                                     false, false, true, false)), (String
+                                     ((Ascii (false, true, false, false,
+                                     true, false, true, false)),
+                                     EmptyString)))))))))))))
+                              then LVendor (a, b, (Some c))
+                              else LUnknown
+                  | e :: l4 ->
+                    (match l4 with
+                     | [] ->
+                       if beq k
+                            (s2b (String ((Ascii (true, false, false, false,
+                              false, false, true, false)), (String ((Ascii
+                              (false, false, true, false, true, false, true,
+                              false)), (String ((Ascii (false, false, true,
+                              false, true, false, true, false)), (String
+                              ((Ascii (false, true, false, false, true,
+                              false, true, false)), (String ((Ascii (true,
+                              false, false, true, false, false, true,
+                              false)), (String ((Ascii (false, true, false,
+                              false, false, false, true, false)), (String
+                              ((Ascii (true, false, true, false, true, false,
+                              true, false)), (String ((Ascii (false, false,
+                              true, false, true, false, true, false)),
+                              (String ((Ascii (true, false, true, false,
+                              false, false, true, false)),
+                              EmptyString)))))))))))))))))))
+                       then LAttr (a, b, c, (Some e))
+                       else LUnknown
+                     | _ :: _ -> LUnknown)))))))
+
+type ioev =
+| EvOpen of str
+| EvClose of str
+| EvReclose of str
+
+(** val apply_simple :
+    bool -> dict -> nat option -> line_act -> (dict * nat option) res **)
+
+let apply_simple ignore_identical d vb = function
+| LSkip -> Ok (d, vb)
+| LAttr (f1, f2, f3, f4) ->
+  (match parse_attribute f1 f2 f3 f4 with
+   | Ok a ->
+     let scope =
+       match vb with
+       | Some i ->
+         (match nth_error d.d_vendors i with
+          | Some v -> v.vn_attrs
+          | None -> [])
+       | None -> d.d_attrs
+     in
+     (match attr_by_name scope a.a_name with
+      | Some ex ->
+        if (&&) ignore_identical (attr_equals a ex)
+        then Ok (d, vb)
+        else Err pE_dupattr
+      | None ->
+        (match vb with
+         | Some i ->
+           Ok
+             ((upd_vendor d i (fun v -> { vn_name = v.vn_name; vn_number =
+                v.vn_number; vn_format = v.vn_format; vn_attrs =
+                (app v.vn_attrs (a :: [])); vn_values = v.vn_values })), vb)
+         | None ->
+           Ok ({ d_attrs = (app d.d_attrs (a :: [])); d_values = d.d_values;
+             d_vendors = d.d_vendors }, vb)))
+   | Err e -> Err e
+   | Panic -> Panic
+   | OutOfFuel -> OutOfFuel)
+| LValue (f1, f2, f3) ->
+  (match parse_value f1 f2 f3 with
+   | Ok v ->
+     (match vb with
+      | Some i ->
+        Ok
+          ((upd_vendor d i (fun w -> { vn_name = w.vn_name; vn_number =
+             w.vn_number; vn_format = w.vn_format; vn_attrs = w.vn_attrs;
+             vn_values = (app w.vn_values (v :: [])) })), vb)
+      | None ->
+        Ok ({ d_attrs = d.d_attrs; d_values = (app d.d_values (v :: []));
+          d_vendors = d.d_vendors }, vb))
+   | Err e -> Err e
+   | Panic -> Panic
+   | OutOfFuel -> OutOfFuel)
+| LVendor (f1, f2, f3) ->
+  (match parse_vendor f1 f2 f3 with
+   | Ok v ->
+     if vendor_by_name_or_number d.d_vendors v.vn_name v.vn_number
+     then Err pE_dupvendor
+     else Ok ({ d_attrs = d.d_attrs; d_values = d.d_values; d_vendors =
+            (app d.d_vendors (v :: [])) }, vb)
+   | Err e -> Err e
+   | Panic -> Panic
+   | OutOfFuel -> OutOfFuel)
+| LBegin n0 ->
+  (match vb with
+   | Some _ -> Err pE_nested
+   | None ->
+     (match vendor_index_by_name d.d_vendors n0 O with
+      | Some i -> Ok (d, (Some i))
+      | None -> Err pE_unkvendor))
+| LEnd n0 ->
+  (match vb with
+   | Some i ->
+     (match nth_error d.d_vendors i with
+      | Some v -> if beq v.vn_name n0 then Ok (d, None) else Err pE_badend
+      | None -> Panic)
+   | None -> Err pE_unmatched)
+| LInclude _ -> Panic
+| LUnknown -> Err pE_unkline
+
+(** val too_long : bytes -> bool **)
+
+let too_long l =
+  N.leb max_token (N.of_nat (length l))
+
+type recur_t =
+  str list -> str -> bytes -> dict -> ioev list -> dict pres * ioev list
+
+(** val parse_lines :
+    bool -> (str -> (str * bytes) option) -> recur_t -> str list -> str ->
+    bytes list -> nat -> nat option -> dict -> ioev list -> dict pres * ioev
+    list **)
+
+let rec parse_lines ignore_identical opener recur path fname ls lineNo vb d tr =
+  match ls with
+  | [] ->
+    (match vb with
+     | Some _ ->
+       ((PFail (ParseErr (pE_unclosed, fname, (sub lineNo (S O))))), tr)
+     | None -> ((POk d), tr))
+  | l :: rest ->
+    if too_long l
+    then ((PFail (PlainErr pE_scan)), tr)
+    else (match classify_line l with
+          | LInclude n0 ->
+            (match vb with
+             | Some _ ->
+               ((PFail (ParseErr (pE_incl_in_block, fname, lineNo))), tr)
+             | None ->
+               (match opener n0 with
+                | Some p ->
+                  let (cn, body) = p in
+                  let tr1 = app tr ((EvOpen cn) :: []) in
+                  if existsb (beq cn) path
+                  then ((PFail (ParseErr (pE_recursive, fname, lineNo))),
+                         (app tr1 ((EvClose cn) :: [])))
+                  else let (p0, tr2) = recur (cn :: path) cn body d tr1 in
+                       (match p0 with
+                        | POk d' ->
+                          parse_lines ignore_identical opener recur path
+                            fname rest (S lineNo) None d'
+                            (app tr2 ((EvClose cn) :: ((EvReclose cn) :: [])))
+                        | PFail e ->
+                          ((PFail e), (app tr2 ((EvClose cn) :: [])))
+                        | PFuel -> (PFuel, tr2))
+                | None -> ((PFail (ParseErr (pE_open, fname, lineNo))), tr)))
+          | x ->
+            (match apply_simple ignore_identical d vb x with
+             | Ok a ->
+               let (d', vb') = a in
+               parse_lines ignore_identical opener recur path fname rest (S
+                 lineNo) vb' d' tr
+             | Err e -> ((PFail (ParseErr (e, fname, lineNo))), tr)
+             | _ ->
+               ((PFail (PlainErr (Npos (XI (XI (XO (XO (XO (XI XH))))))))),
+                 tr)))
+
+(** val parse_file :
+    bool -> (str -> (str * bytes) option) -> nat -> recur_t **)
+
+let rec parse_file ignore_identical opener fuel x x0 x1 x2 tr =
+  match fuel with
+  | O -> (PFuel, tr)
+  | S fu ->
+    parse_lines ignore_identical opener
+      (parse_file ignore_identical opener fu) x x0 (scan_lines x1) (S O) None
+      x2 tr
+
+(** val parse_root :
+    bool -> (str -> (str * bytes) option) -> nat -> str -> bytes -> dict
+    pres * ioev list **)
+
+let parse_root ignore_identical opener fuel fname text =
+  parse_file ignore_identical opener fuel (fname :: []) fname text empty_dict
+    []
 
 type key = n * n
 
@@ -5849,11 +7068,6 @@ let md5 msg =
 type tok =
 | TI of z
 | TB of bytes
-
-(** val s2b : string -> bytes **)
-
-let s2b s =
-  map n_of_ascii (list_ascii_of_string s)
 
 (** val name_is : bytes -> string -> bool **)
 
@@ -10847,6 +12061,131 @@ let dispatch_c08 name bs zs =
                      (if s.conn_closed then Zpos XH else Z0)) :: [])))))))
   else None
 
+(** val t_optz : z option -> tok list **)
+
+let t_optz = function
+| Some v -> (TI (Zpos XH)) :: ((TI v) :: [])
+| None -> (TI Z0) :: []
+
+(** val t_attr : attr -> tok list **)
+
+let t_attr a =
+  app ((TB a.a_name) :: ((TI (zlen a.a_oid)) :: []))
+    (app (map (fun x -> TI x) a.a_oid)
+      (app ((TI a.a_type) :: [])
+        (app (t_optz a.a_size)
+          (app (t_optz a.a_encrypt)
+            (app (tbool a.a_has_tag) (tbool a.a_concat))))))
+
+(** val t_value : value -> tok list **)
+
+let t_value v =
+  (TB v.v_attr) :: ((TB v.v_name) :: ((TI v.v_number) :: []))
+
+(** val t_vendor : vendor -> tok list **)
+
+let t_vendor v =
+  app ((TB v.vn_name) :: ((TI v.vn_number) :: []))
+    (app
+      (match v.vn_format with
+       | Some p ->
+         let (t, l) = p in (TI (Zpos XH)) :: ((TI t) :: ((TI l) :: []))
+       | None -> (TI Z0) :: [])
+      (app ((TI (zlen v.vn_attrs)) :: [])
+        (app (flat_map t_attr v.vn_attrs)
+          (app ((TI (zlen v.vn_values)) :: []) (flat_map t_value v.vn_values)))))
+
+(** val t_dict : dict -> tok list **)
+
+let t_dict d =
+  app ((TI (zlen d.d_attrs)) :: [])
+    (app (flat_map t_attr d.d_attrs)
+      (app ((TI (zlen d.d_values)) :: [])
+        (app (flat_map t_value d.d_values)
+          (app ((TI (zlen d.d_vendors)) :: [])
+            (flat_map t_vendor d.d_vendors)))))
+
+(** val t_pres : dict pres -> tok list **)
+
+let t_pres = function
+| POk d -> (TI Z0) :: (t_dict d)
+| PFail e ->
+  (match e with
+   | ParseErr (c, f, l) ->
+     (TI (Zpos XH)) :: ((TI (Z.of_N c)) :: ((TB f) :: ((TI
+       (Z.of_nat l)) :: [])))
+   | PlainErr c -> (TI (Zpos (XO XH))) :: ((TI (Z.of_N c)) :: []))
+| PFuel -> (TI (Zpos (XI XH))) :: []
+
+(** val t_trace : ioev list -> tok list **)
+
+let t_trace tr =
+  (TI
+    (zlen tr)) :: (flat_map (fun e ->
+                    match e with
+                    | EvOpen n0 -> (TI Z0) :: ((TB n0) :: [])
+                    | EvClose n0 -> (TI (Zpos XH)) :: ((TB n0) :: [])
+                    | EvReclose n0 -> (TI (Zpos (XO XH))) :: ((TB n0) :: []))
+                    tr)
+
+(** val opener_of : bytes list -> bytes -> (bytes * bytes) option **)
+
+let rec opener_of bs n0 =
+  match bs with
+  | [] -> None
+  | rq :: l ->
+    (match l with
+     | [] -> None
+     | cn :: l0 ->
+       (match l0 with
+        | [] -> None
+        | tx :: r -> if beq rq n0 then Some (cn, tx) else opener_of r n0))
+
+(** val dispatch_dict : bytes -> bytes list -> z list -> tok list option **)
+
+let dispatch_dict name bs zs =
+  if name_is name (String ((Ascii (true, false, true, true, false, true,
+       true, false)), (String ((Ascii (false, true, true, true, false, true,
+       false, false)), (String ((Ascii (false, false, true, false, false,
+       true, true, false)), (String ((Ascii (true, false, false, true, false,
+       true, true, false)), (String ((Ascii (true, true, false, false, false,
+       true, true, false)), (String ((Ascii (false, false, true, false, true,
+       true, true, false)), (String ((Ascii (false, false, false, false,
+       true, true, true, false)), (String ((Ascii (true, false, false, false,
+       false, true, true, false)), (String ((Ascii (false, true, false,
+       false, true, true, true, false)), (String ((Ascii (true, true, false,
+       false, true, true, true, false)), (String ((Ascii (true, false, true,
+       false, false, true, true, false)), EmptyString))))))))))))))))))))))
+  then let (r, tr) =
+         parse_root (Z.eqb (z1 zs) (Zpos XH))
+           (opener_of (skipn (S (S O)) bs)) (Z.to_nat (nth (S O) zs Z0))
+           (b1 bs) (b2 bs)
+       in
+       Some (app (t_pres r) (t_trace tr))
+  else if name_is name (String ((Ascii (true, false, true, true, false, true,
+            true, false)), (String ((Ascii (false, true, true, true, false,
+            true, false, false)), (String ((Ascii (false, true, true, false,
+            false, true, true, false)), (String ((Ascii (true, false, false,
+            true, false, true, true, false)), (String ((Ascii (true, false,
+            true, false, false, true, true, false)), (String ((Ascii (false,
+            false, true, true, false, true, true, false)), (String ((Ascii
+            (false, false, true, false, false, true, true, false)), (String
+            ((Ascii (true, true, false, false, true, true, true, false)),
+            EmptyString))))))))))))))))
+       then Some (flat_map (fun f -> (TB f) :: []) (fields (b1 bs)))
+       else if name_is name (String ((Ascii (true, false, true, true, false,
+                 true, true, false)), (String ((Ascii (false, true, true,
+                 true, false, true, false, false)), (String ((Ascii (false,
+                 false, true, true, false, true, true, false)), (String
+                 ((Ascii (true, false, false, true, false, true, true,
+                 false)), (String ((Ascii (false, true, true, true, false,
+                 true, true, false)), (String ((Ascii (true, false, true,
+                 false, false, true, true, false)), (String ((Ascii (true,
+                 true, false, false, true, true, true, false)),
+                 EmptyString))))))))))))))
+            then Some (flat_map (fun f -> (TB f) :: []) (scan_lines (b1 bs)))
+            else None
+
 (** val dispatch : bytes -> bytes list -> z list -> tok list **)
 
 let dispatch name bs zs =
@@ -10906,5 +12245,8 @@ let dispatch name bs zs =
                                    (match dispatch_c08 name bs zs with
                                     | Some t -> t
                                     | None ->
-                                      (TI (Zneg (XI (XO (XO (XO (XO (XI
-                                        XH)))))))) :: [])))))))
+                                      (match dispatch_dict name bs zs with
+                                       | Some t -> t
+                                       | None ->
+                                         (TI (Zneg (XI (XO (XO (XO (XO (XI
+                                           XH)))))))) :: []))))))))
